@@ -268,6 +268,17 @@ class Fn:
             if ck == "IntegralCast":
                 src, dst = lean_type(qual(sub)), lean_type(qual(n))
                 return self.convert(self.expr(sub), src, dst, sub)
+            if ck == "PointerToBoolean":
+                # a pointer used as a truth value: the model only needs to know whether it is null
+                cur = sub
+                while cur.get("kind") in ("ImplicitCastExpr", "ParenExpr"):
+                    cur = inner(cur)[0]
+                mp = self.member_path_noreg(cur) if cur.get("kind") == "MemberExpr" else None
+                if mp is None:
+                    self.err(n, "pointer truth value not rooted at a parameter")
+                nm = mp + "_nonnull"
+                self.members[nm] = "Bool"
+                return nm
             if ck == "IntegralToBoolean":
                 src = lean_type(qual(sub))
                 if src == "Bool":
@@ -783,7 +794,7 @@ def translate_unit(tu_text, specs, consts_names=(), extra_inc=None, inline_names
     out = []
     sigs = {}
     for sp in specs:
-        objs = clang_ast(tu_text, sp["c"], extra_inc, defines)
+        objs = clang_ast(tu_text, sp.get("filt", sp["c"]), extra_inc, defines)
         bodies = find_bodies(objs, sp["c"], sp.get("types"))
         if not bodies:
             raise TranslationError("function %s (%s) not found in current sources" % (sp["c"], sp.get("types")))
@@ -822,6 +833,9 @@ ENGINE_SPECS = [
     dict(c="IsContributingClosed", lean="IsContributingClosed"),
     dict(c="IsContributingOpen", lean="IsContributingOpen"),
     dict(c="PtsReallyClose", lean="PtsReallyClose"),
+    dict(c="operator()", lean="LocMinSorter", filt="LocMinSorter"),
+    dict(c="operator()", lean="HorzSegSorter", filt="HorzSegSorter"),
+    dict(c="IntersectListSort", lean="IntersectListSort"),
 ]
 
 RECT_TU = '''#include "clipper.rectclip.cpp"
